@@ -80,7 +80,7 @@ func canonicalStructSize(s Struct) ObjectSize {
 		}
 	}
 	for i := int32(s.size.PointerCount) - 1; i >= 0; i-- {
-		if s.seg.readRawPointer(s.pointerAddress(uint16(i))) != 0 {
+		if s.hasNonNullPtr(uint16(i)) {
 			sz.PointerCount = uint16(i + 1)
 			break
 		}
